@@ -243,12 +243,41 @@ def law_fuse(ch):
     if not x.blocks:
         return
     if case["prefuse"]:
+        x0 = x
         x = must(x.fuse, tuple(case["prefuse"]), what="prefuse")
         ch.label("pre-fused-axis")
+        if not ferm:
+            # conjugating a fused array and unfusing it afterwards equals
+            # conjugating the original (nested bookkeeping is conjugated too)
+            from ..layout import fuse_layout
+
+            pos, _, _, pperm, _ = fuse_layout(x0.ndim, [case["prefuse"]])
+            u = must(lambda: x.conj().unfuse(pos), what="conj.unfuse")
+            want = must(lambda: x0.conj().transpose(tuple(pperm)),
+                        what="conj.transpose")
+            same_array(u, want, "conj-of-fused:unfuse", exact=True)
     groups = case["groups"]
     if any(a >= x.ndim for g in groups for a in g):
         return
-    check_fuse(ch, x, groups, ferm)
+    y = check_fuse(ch, x, groups, ferm)
+    if case["prefuse"] and not ferm:
+        # two-level: conj of the (possibly nested) fused result, unfuse
+        # everything, compare with the conjugated original element-wise
+        yc = must(y.conj, what="conj")
+        require_valid(yc, "conj-of-fused:invalid", "conj of fused array")
+        flat = yc
+        for _ in range(4):
+            fa = [i for i, ix in enumerate(flat.indices)
+                  if ix.subinfo is not None]
+            if not fa:
+                break
+            flat = must(flat.unfuse, fa[-1], what="unfuse")
+        require_valid(flat, "conj-of-fused:unfused-invalid",
+                      "fully unfused conjugate")
+        e1 = D.elements(flat)
+        e2 = {k: np.conj(v) for k, v in D.elements(y).items()}
+        require(e1 == e2, "conj-of-fused:elements",
+                "conj then full unfuse moved or changed elements")
     for lab in gen.spec_summary(spec):
         ch.label(lab)
     big = any(len(g) >= 2 for g in groups)
